@@ -28,6 +28,15 @@ source says NOW.  What is extracted (and nothing else):
   (`extractedSharedStore` = not (rebinds and init trips): with a class-level `_states` that is never rebound per object,
    all canaries of all model instances share one dict)
 
+* `extractedAliases`    - for each public alias of an evaluator (`ode_T`, `jacobian_T`, `grad_T`, `diff_jacobian_T`,
+                          `grad_jacobianT`, `total_transition`): which evaluator's compiled object it returns and HOW - through
+                          the evaluator's method `self.<name>(state, t)` (guard `none`), or by a fast path that calls
+                          `<name>Compiled` directly while some canary flag `g` is down (guard `some g`).  A public method of
+                          the two classes that is a one-line alias of a registered evaluator and is NOT in the table is a refusal.
+* "followed by trip()"  - a `return` / `raise` that can be reached after a definition-changing statement and before the
+                          `trip()` (an early exit) makes that statement "not followed by trip"; writes such as
+                          `self._odeList[i] = ...`, `self._xxxList += ...`, `del self._xxxList[i]` are definition-changing too
+
 A mutator in which no definition-changing statement can be found, or a missing class / method, is a REFUSAL
 (broken tie, reported as such) - never silently `true`.
 """
@@ -94,16 +103,37 @@ def _is_set_sp(stmt):
     return isinstance(stmt, ast.Expr) and _is_self_attr_call(stmt.value, ["set_sp"])
 
 
+LIST_WRITES = ("append", "extend", "insert", "remove", "pop", "clear", "sort", "reverse")
+
+
+def _is_self_list(node):
+    """`self._xxxList`"""
+    return isinstance(node, ast.Attribute) and isinstance(node.value, ast.Name) and node.value.id == "self" and node.attr.endswith("List")
+
+
+def _is_list_target(t):
+    """an assignment target that changes a definition list: `self._xxxList`, `self._xxxList[...]` (also nested subscripts)"""
+    while isinstance(t, ast.Subscript):
+        t = t.value
+    return _is_self_list(t)
+
+
 def _is_mutation(stmt):
     if isinstance(stmt, ast.Expr) and isinstance(stmt.value, ast.Call):
         f = stmt.value.func
         if isinstance(f, ast.Attribute):
             # self._xxxList.append(...)
-            if f.attr in ("append", "extend", "insert") and isinstance(f.value, ast.Attribute) and isinstance(f.value.value, ast.Name) \
-                    and f.value.value.id == "self" and f.value.attr.endswith("List"):
+            if f.attr in LIST_WRITES and _is_self_list(f.value):
                 return True
             if isinstance(f.value, ast.Name) and f.value.id == "self" and f.attr in MUTATING_CALLS:
                 return True
+    # self._xxxList[i] = ... / self._xxxList = ... / self._xxxList += ... / del self._xxxList[i]
+    if isinstance(stmt, ast.Assign) and any(_is_list_target(t) for t in stmt.targets):
+        return True
+    if isinstance(stmt, ast.AugAssign) and _is_list_target(stmt.target):
+        return True
+    if isinstance(stmt, ast.Delete) and any(_is_list_target(t) for t in stmt.targets):
+        return True
     if isinstance(stmt, ast.AugAssign) and isinstance(stmt.target, ast.Attribute) and isinstance(stmt.target.value, ast.Name) \
             and stmt.target.value.id == "self" and stmt.target.attr in ("_derivedParamEqn",):
         return True
@@ -122,22 +152,57 @@ def _blocks(stmt):
     return out
 
 
+def _has_exit(node):
+    """a `return` / `raise` somewhere inside the statement (nested function definitions excluded)"""
+    stack = [node]
+    while stack:
+        n = stack.pop()
+        if isinstance(n, (ast.Return, ast.Raise)):
+            return True
+        if isinstance(n, (ast.FunctionDef, ast.AsyncFunctionDef, ast.Lambda)) and n is not node:
+            continue
+        stack.extend(ast.iter_child_nodes(n))
+    return False
+
+
 def _analyse(fn, follow):
-    """returns (number of definition-changing statements, number of them NOT followed by `follow` on the way out)"""
+    """returns (number of definition-changing statements, number of them NOT followed by `follow` on the way out).
+
+    The way out of a definition-changing statement: the statements after it in its block, then those after the enclosing
+    compound statement in the enclosing block, and so on up to the end of the function (the sibling branches of an `if` are
+    not on it; the body of an enclosing loop is, once more, for its exits).  The statement counts as followed when a `follow`
+    statement stands on that way BEFORE any statement through which the function can be left (`return` / `raise`, also
+    nested in a compound statement): an early `return` between the change and `trip()` is "not followed by trip".  A
+    `follow` statement earlier in the same block also counts (the flags stay up until the next evaluation)."""
     total, uncovered = [0], [0]
 
-    def walk(block, covered_after):
-        # covered_after: a `follow` statement occurs after this block in an enclosing block
+    def covered(path):
+        for st in path:
+            if isinstance(st, tuple):                 # ("again", loop body): the next iteration of an enclosing loop
+                if any(_has_exit(b) for b in st[1]):
+                    return False
+                continue
+            if follow(st):
+                return True
+            if _has_exit(st):
+                return False
+        return False
+
+    def walk(block, cont):
+        # cont: what is executed after this block on the way out
         for i, st in enumerate(block):
-            later = covered_after or any(follow(s) for s in block[i + 1:])
+            rest = list(block[i + 1:])
             if _is_mutation(st):
                 total[0] += 1
-                here = later or any(follow(s) for s in block[:i])     # same block, before: still "in the same block"
-                if not here:
+                if not (any(follow(s) for s in block[:i]) or covered(rest + cont)):
                     uncovered[0] += 1
-            for b in _blocks(st):
-                walk(b, later)
-    walk(fn.body, False)
+            if isinstance(st, (ast.For, ast.While)):
+                walk(st.body, [("again", st.body)] + list(st.orelse) + rest + cont)
+                walk(st.orelse, rest + cont)
+            else:
+                for b in _blocks(st):
+                    walk(b, rest + cont)
+    walk(fn.body, [])
     return total[0], uncovered[0]
 
 
@@ -245,9 +310,118 @@ def _class_level_states(cls):
     return any(isinstance(n, ast.Assign) and any(isinstance(t, ast.Name) and t.id == "_states" for t in n.targets) for n in cls.body)
 
 
+# ---- secondary entry points: public aliases of the evaluators ----------------------------------------------------------
+ALIASES = [  # (method name, class, file, modelled target)
+    ("ode_T", "DeterministicOde", "deterministic.py", "ode"),
+    ("jacobian_T", "DeterministicOde", "deterministic.py", "jacobian"),
+    ("grad_T", "DeterministicOde", "deterministic.py", "grad"),
+    ("diff_jacobian_T", "DeterministicOde", "deterministic.py", "diff_jacobian"),
+    ("grad_jacobianT", "DeterministicOde", "deterministic.py", "grad_jacobian"),
+    ("total_transition", "SimulateOde", "simulate.py", "eventRateVector"),
+]
+
+
+def _self_calls(node, names):
+    """[(name, call)] for every call `self.<name>(...)` inside `node` with name in `names`"""
+    out = []
+    for n in ast.walk(node):
+        if isinstance(n, ast.Call) and isinstance(n.func, ast.Attribute) and isinstance(n.func.value, ast.Name) \
+                and n.func.value.id == "self" and n.func.attr in names:
+            out.append((n.func.attr, n))
+    return out
+
+
+def _passes_state_and_time(call, fn):
+    """the call hands on exactly the method's own `state` and `t` arguments: positionally as (state, t), or as the keywords
+    state= / time= (or t=)"""
+    argnames = [a.arg for a in fn.args.args]
+    if "state" not in argnames or "t" not in argnames:
+        return False
+    name = lambda a: a.id if isinstance(a, ast.Name) else None
+    if len(call.args) == 2 and not call.keywords:
+        return [name(a) for a in call.args] == ["state", "t"]
+    if not call.args and len(call.keywords) == 2:
+        kw = {k.arg: name(k.value) for k in call.keywords}
+        return kw.get("state") == "state" and (kw.get("time") == "t" or kw.get("t") == "t")
+    return False
+
+
+def _flag_of(node):
+    """`getattr(self._hasNewTransition, "<g>"[, default])` or `self._hasNewTransition.<g>` -> g"""
+    if isinstance(node, ast.Call) and isinstance(node.func, ast.Name) and node.func.id == "getattr" and len(node.args) in (2, 3):
+        a, b = node.args[0], node.args[1]
+        if isinstance(a, ast.Attribute) and a.attr == "_hasNewTransition" and isinstance(a.value, ast.Name) and a.value.id == "self" \
+                and isinstance(b, ast.Constant) and isinstance(b.value, str):
+            return b.value
+    if isinstance(node, ast.Attribute) and isinstance(node.value, ast.Attribute) and node.value.attr == "_hasNewTransition" \
+            and isinstance(node.value.value, ast.Name) and node.value.value.id == "self":
+        return node.attr
+    return None
+
+
+def _alias_impl(fn, registered):
+    """-> (target, guard or None).  Translated subset (anything else: Refuse):
+         [docstring]  return <expression with exactly one call self.<target>(state, t)>                      -> (target, None)
+         [docstring]  if hasattr(self, "<target>Compiled") and not <flag g>: return <expr with one call
+                      self.<target>Compiled(state=, time=)>  ;  return <... self.<target>(state, t) ...>     -> (target, g)"""
+    body = [st for st in fn.body if not (isinstance(st, ast.Expr) and isinstance(st.value, ast.Constant))]
+    compiled = set(n + "Compiled" for n in registered)
+
+    def plain_return(st):
+        if not (isinstance(st, ast.Return) and st.value is not None):
+            raise Refuse("%s: statement outside the translated subset (line %d)" % (fn.name, st.lineno))
+        calls = _self_calls(st.value, set(registered))
+        if len(calls) != 1 or _self_calls(st.value, compiled):
+            raise Refuse("%s: the returned expression does not call exactly one registered evaluator (line %d)" % (fn.name, st.lineno))
+        if not _passes_state_and_time(calls[0][1], fn):
+            raise Refuse("%s: the evaluator is not called with the method's own (state, t) (line %d)" % (fn.name, st.lineno))
+        return calls[0][0]
+
+    if len(body) == 1:
+        return plain_return(body[0]), None
+    if len(body) == 2 and isinstance(body[0], ast.If) and not body[0].orelse and len(body[0].body) == 1:
+        target = plain_return(body[1])
+        test = body[0].test
+        if not (isinstance(test, ast.BoolOp) and isinstance(test.op, ast.And) and len(test.values) == 2):
+            raise Refuse("%s: fast-path test outside the translated subset (line %d)" % (fn.name, test.lineno))
+        has, guard = None, None
+        for v in test.values:
+            if isinstance(v, ast.Call) and isinstance(v.func, ast.Name) and v.func.id == "hasattr" and len(v.args) == 2 \
+                    and isinstance(v.args[0], ast.Name) and v.args[0].id == "self" and isinstance(v.args[1], ast.Constant):
+                has = v.args[1].value
+            elif isinstance(v, ast.UnaryOp) and isinstance(v.op, ast.Not):
+                guard = _flag_of(v.operand)
+        ret = body[0].body[0]
+        if has is None or guard is None or not (isinstance(ret, ast.Return) and ret.value is not None):
+            raise Refuse("%s: fast-path test outside the translated subset (line %d)" % (fn.name, test.lineno))
+        calls = _self_calls(ret.value, compiled)
+        if len(calls) != 1 or _self_calls(ret.value, set(registered)) or calls[0][0] != has or has != target + "Compiled":
+            raise Refuse("%s: the fast path does not return the compiled object of the evaluator the method falls back to (line %d)" % (fn.name, ret.lineno))
+        if not _passes_state_and_time(calls[0][1], fn):
+            raise Refuse("%s: the compiled object is not called with the method's own (state, t) (line %d)" % (fn.name, ret.lineno))
+        return target, guard
+    raise Refuse("%s: body outside the translated subset" % fn.name)
+
+
+def _unlisted_aliases(trees, registered):
+    """public methods of DeterministicOde / SimulateOde, not in ALIASES, whose whole body is one `return` of an expression
+    that calls exactly one registered evaluator with the method's own (state, t): a further alias the model does not know"""
+    known = set(a[0] for a in ALIASES)
+    out = []
+    for cname, tree in trees:
+        for n in _class(tree, cname).body:
+            if isinstance(n, ast.FunctionDef) and not n.name.startswith("_") and n.name not in known and not n.decorator_list:
+                try:
+                    tgt, g = _alias_impl(n, registered)
+                    out.append("%s.%s -> %s" % (cname, n.name, tgt))
+                except Refuse:
+                    pass
+    return out
+
+
 def translate(repo):
     res = {"refused": [], "trips": {}, "watched": [], "registered": [], "declSetsSp": None, "detail": {},
-           "tripRebinds": None, "initTrips": None}
+           "tripRebinds": None, "initTrips": None, "aliases": []}
     try:
         p = os.path.join(repo, "src", "pygom", "model", "ode_utils", "compile_canary.py")
         with open(p, "rb") as f:
@@ -296,6 +470,24 @@ def translate(repo):
             raise Refuse("no add_func registration found")
     except (Refuse, OSError, SyntaxError) as e:
         res["refused"].append({"what": "HasNewTransition.states / add_func registrations", "detail": str(e)})
+        return res
+    # secondary entry points: which compiled object does each alias return, through the evaluator's method or directly
+    registered = [n for n, _ in res["registered"]]
+    trees = {"deterministic.py": det, "simulate.py": sim}
+    for name, cname, rel, _target in ALIASES:
+        try:
+            tgt, guard = _alias_impl(_method(_class(trees[rel], cname), name, False), registered)
+            res["aliases"].append((name, tgt, guard))
+        except Refuse as e:
+            res["refused"].append({"what": "alias %s.%s" % (cname, name), "detail": str(e)})
+    try:
+        extra = _unlisted_aliases([("DeterministicOde", det), ("SimulateOde", sim)], registered)
+        if extra:
+            res["refused"].append({"what": "aliases", "detail": "public alias of an evaluator that the model does not list: " + ", ".join(extra)})
+    except Refuse as e:
+        res["refused"].append({"what": "aliases", "detail": str(e)})
+    res["detail"]["aliases"] = [{"method": n, "returns": t, "via": ("%sCompiled behind the flag %r" % (t, g)) if g else "self.%s(state, t)" % t}
+                                for n, t, g in res["aliases"]]
     return res
 
 
@@ -337,6 +529,20 @@ def render(res):
               "/-- all canaries of all model instances write one dict (the class attribute `_states`) -/",
               "def extractedSharedStore : Bool := !(extractedTripRebinds && extractedInitTrips)",
               "",
+              "/-- (alias method, evaluator whose compiled object it returns, `none`: through `self.<evaluator>(state, t)` / `some g`: a fast",
+              "path that calls `<evaluator>Compiled` directly while the flag `g` is down) for `ode_T`, `jacobian_T`, `grad_T`,",
+              "`diff_jacobian_T`, `grad_jacobianT`, `total_transition` -/",
+              "def extractedAliases : List (String × String × Option String) := [%s]" % ", ".join(
+                  '("%s", "%s", %s)' % (n, t, ('some "%s"' % g) if g else "none") for n, t, g in res.get("aliases", [])),
+              "",
+              "/-- how each modelled alias reaches the compiled object, as the text reads -/",
+              "def extractedAliasImpl (a : Alias) : AliasImpl :=",
+              "  match extractedAliases.lookup a.name with",
+              "  | some (_, some g) => match Ev.ofName? g with",
+              "    | some e => .direct e",
+              "    | none => .method",
+              "  | _ => .method",
+              "",
               "/-- the source variant the text of the tree under test describes -/",
               "def extractedCfg : Cfg :=",
               "  { watched := fun e => extractedWatched.contains e.name,",
@@ -362,4 +568,4 @@ def regenerate(repo):
 if __name__ == "__main__":
     import json, sys
     r = regenerate(sys.argv[1] if len(sys.argv) > 1 else os.environ.get("VERIF_REPO", "/repo"))
-    print(json.dumps({k: r[k] for k in ("trips", "watched", "registered", "declSetsSp", "tripRebinds", "initTrips", "refused", "detail", "changed")}, indent=1))
+    print(json.dumps({k: r[k] for k in ("trips", "watched", "registered", "declSetsSp", "tripRebinds", "initTrips", "aliases", "refused", "detail", "changed")}, indent=1))
